@@ -14,7 +14,7 @@ CLAIMED={
    technique="bounded-exhaustive enumeration of values and byte strings with differential comparison against an independent codec",
    ref="DESIGN.md 4 (C16)"),
  "C11": dict(
-   text="Per procedure the full Cartesian product of boundary domains for every argument (16 handle shapes, 12 names, 11 offsets/sizes up to 2^64-1, counts with agreeing and disagreeing data lengths, cookies, limits, enum values incl. illegal ones; RENAME/LINK over all handle pairs) in two or three file-system states, and every truncation / extension / 32-bit word substitution of the XDR argument bytes of one valid request per procedure (22 NFS + 6 MOUNT) fed through the registered rpcgen handlers; every call under the controlled scheduler must return (no panic, deadlock or runaway) and a sanity script must keep succeeding.",
+   text="Per procedure the full Cartesian product of boundary domains for every argument (16 handle shapes, 12 names, 11 offsets/sizes up to 2^64-1, counts with agreeing and disagreeing data lengths, cookies, limits, enum values incl. illegal ones; RENAME/LINK over all handle pairs) in four file-system states (populated with recycled inodes, tiny full disk, maximal sparse file, inode table exhausted but for two numbers), and every truncation / extension / 32-bit word substitution of the XDR argument bytes of one valid request per procedure (22 NFS + 6 MOUNT) fed through the registered rpcgen handlers; every request meets the named state on a fresh server instance (snapshot), cold and with warm caches, under the controlled scheduler: it must return (no panic, no deadlock, at most 400000 scheduling points) and a sanity script must succeed on the same instance afterwards.",
    note="Replaces the property's coverage-guided fuzzing sub-clause (a sampling technique) by bounded-exhaustive mutation of the message bytes. Workers run under ulimit -v 16 GB; RPC header handling by go-rpcgen's rfc1057 server is outside go-nfsd and not exercised. Bounds: the boundary domains; one valid message per procedure.",
    technique="bounded-exhaustive input enumeration (argument products and byte-level mutants) on the implementation under a controlled scheduler",
    ref="DESIGN.md 4 (C11)"),
@@ -29,32 +29,32 @@ CLAIMED={
    technique="bounded-exhaustive enumeration of configurations (disk sizes) on the implementation with structural oracles",
    ref="DESIGN.md 4 (C15)"),
  "C13": dict(
-   text="For every directory shape of a list (empty, freed slots, block boundaries, long names) every READDIR count in a dense range and a READDIRPLUS dircount x maxcount grid are enumerated with the client loop; completeness, no duplicates, no phantoms, progress, termination, and agreement of ids/handles/attributes with LOOKUP+GETATTR; every returned cookie re-used; a mutation (add / remove listed / remove unlisted) at every page boundary of the multi-page limits.",
-   note="Trusted: reference model for ids/handles/attributes. Bounds: shapes up to 70 entries, grids as stated (step 8 away from thresholds), 80-call cap, mutation only between calls (during a call: C03 harness readdirplus-create-remove).",
+   text="For every directory shape of a list (empty, freed slots, block boundaries, long names; 300 and - thorough - 17000 entries with a short list of limits) every READDIR count in a dense range and a READDIRPLUS dircount x maxcount grid are enumerated with the client loop; completeness, no duplicates, no phantoms, progress, termination, and agreement of ids/handles/attributes with LOOKUP+GETATTR; every returned cookie re-used; a mutation (add / remove listed / remove unlisted) at every page boundary of the multi-page limits.",
+   note="Trusted: reference model for ids/handles/attributes. Bounds: dense grids for shapes up to 70 entries (step 8 away from thresholds; 80-call cap), a short list of limits for the big shapes (call cap = number of entries), mutation only between calls (during a call: C03 harness readdirplus-create-remove).",
    technique="bounded-exhaustive enumeration of inputs (limits, cookies, mutation points) against the implementation with a set-based oracle",
    ref="DESIGN.md 4 (C13)"),
  "C12": dict(
-   text="Block-recycling search on disks with 12 and 40 data blocks (every freed block is reused at once): breadth-first over fills with recognisable patterns, truncations to aligned/unaligned sizes, growth, partial writes, writes past the end, removal, re-creation, restart; every file read in full after every transition and compared byte for byte with the reference; plus every crash image of the recycling histories, recovered and compared byte-exactly with the prefix states.",
+   text="Block-recycling search on disks with 12 and 40 data blocks (every freed block is reused at once): breadth-first over fills with recognisable patterns, truncations to aligned/unaligned sizes, growth, partial writes, writes past the end, removal, re-creation, restart; every file read in full after every transition and compared byte for byte with the reference; plus every crash image of the recycling histories (files, symbolic links, directories), recovered and compared byte-exactly with the prefix states; plus crash images of truncations of a 530-block file freed by several background transactions, after which every surviving file is written across / far beyond its end, grown and read.",
    note="Trusted: reference model bytes. On a full disk a READ of a hole may return short (materialising the hole needs a block) and a WRITE may be short; both are tolerated as implementation-only failures as long as the bytes returned are right. The zero-scan of free blocks is not a verdict (mechanism, not property). Bounds: depth, two files, pattern alphabet.",
    technique="explicit-state search + crash-image enumeration of the implementation with a byte-exact reference oracle",
    ref="DESIGN.md 4 (C12)"),
  "C09": dict(
-   text="Differential exhaustive check without expected values: on disks with 1..N free blocks and a large one, in every state reached by a bounded building sequence, every request of a list of candidates that fail part-way is issued; if it returns an error, dump (incl. handles), free counts, fsck, reclaim and cache audits must equal those of the run without it, and every bounded suffix of further operations (incl. restart) must reply and end identically.",
-   note="Trusted: determinism of the controlled executions (the two runs differ only by the failed request; server-chosen times and inode numbers are excluded from the suffix comparison). Bounds: building depth plus named deeper states (full directory block, full disk), candidate list incl. transactions that fail only at commit, suffix length, disk sizes; nearly-exhausted inode tables are not built (32k creates) - inode exhaustion is exercised by C15's fill only.",
+   text="Differential exhaustive check without expected values: on disks with 1..N free blocks and a large one, in every state reached by a bounded building sequence, every request of a list of candidates that fail part-way is issued; if it returns an error, dump (incl. handles), the inodes and directory entries on the logical disk (link counts, generations, sizes, slots), free counts, fsck, reclaim and cache audits must equal those of the run without it, and every bounded suffix of further operations (incl. restart) must reply and end identically.",
+   note="Trusted: determinism of the controlled executions (the two runs differ only by the failed request; server-chosen times and inode numbers are excluded from the suffix comparison). Bounds: building depth plus named deeper states (full directory block, full disk), candidate list incl. transactions that fail only at commit, suffix length, disk sizes; the inode table exhausted (32765 files built through the API, cloned per run) in three variants; suffixes there only in the thorough tier.",
    technique="explicit-state differential search over operation sequences of the implementation (run with vs without the failing request)",
    ref="DESIGN.md 4 (C09)"),
  "C08": dict(
-   text="Breadth-first search over create/remove/rename-over/restart/crash-restart cycles with immediate inode-number reuse; in every state every handle ever issued (live or dead) is used in every procedure and every handle position; dead handles must answer STALE/BADHANDLE and change nothing, live handles must denote the bound object, new handles must never repeat; a dead handle is also paired with the live handle of the same inode number; a second search over directory-over-directory renames.",
-   note="Trusted: reference model's handle binding. Bounds: depth, two directories, a few names; inode exhaustion/wrap-around of the allocator is not reached (restart-driven reuse instead).",
+   text="Breadth-first search over create/remove/rename-over/restart/crash-restart cycles with immediate inode-number reuse; in every state every handle ever issued (live or dead) is used in every procedure and every handle position; dead handles must answer STALE/BADHANDLE and change nothing, live handles must denote the bound object, new handles must never repeat; a dead handle is also paired with the live handle of the same inode number; a second search over directory-over-directory renames and removals of directories with REMOVE and RMDIR; a third from the state with the inode table exhausted (numbers come only from removals, the next-fit allocator wraps).",
+   note="Trusted: reference model's handle binding. Bounds: depth (the inode-exhaustion search: 2 quick / 4 thorough), two directories, a few names; in the exhausted state the per-handle probes leave out the 32757 bulk files that no operation of the alphabet names.",
    technique="explicit-state search over operation sequences of the implementation with an exhaustive handle/procedure probe in every state",
    ref="DESIGN.md 4 (C08)"),
  "C10": dict(
-   text="In every state of a breadth-first search (namespace alphabet + macro-operations exceeding the inode cache and spanning directory blocks + refused operations + hole-filling reads; inode cache at 100 and scaled to 6) the exact client-visible dump of the running server is compared with a server recovered from the disk image at that point and with a clean restart on the same disk, and caches/allocators are audited against the logical disk.",
+   text="In every state of a breadth-first search (namespace alphabet + macro-operations exceeding the inode cache and spanning directory blocks + refused operations + hole-filling reads; inode cache at 100 and scaled to 6; the server's own Crash() during a background free as a symbol; further searches from the inode-exhausted state, on a disk with 10 free blocks and from a state with a 700-block file) the exact client-visible dump of the running server is compared with a server recovered from the disk image at that point and with a clean restart on the same disk, and caches/allocators are audited against the logical disk.",
    note="Trusted: ExactDump covers everything a client can observe through the procedures used (GETATTR, READ, READLINK, READDIR, READDIRPLUS, LOOKUP); file contents within the probe windows for the sparse file. Bounds: depth, alphabet; fstxn.ICACHESZ scaled to 6 in the second search.",
    technique="explicit-state search over operation sequences of the implementation with a differential (running vs restarted vs recovered) oracle",
    ref="DESIGN.md 4 (C10)"),
  "C05": dict(
-   text="Reclaim audit (marked in use == reachable from the root; in-memory allocators == on-disk bitmaps; free counts return to the fresh values after delete-everything) in every state of a breadth-first search over a build/delete alphabet with background frees run to completion under the scheduler; on every crash image of histories that free a 530-block file in several background transactions, after the property's touch/reuse procedure (two variants: touch with SETATTR and reuse inode numbers; delete everything first); a second search on a disk with 10 free blocks; and at the end of every schedule of the concurrent-free harnesses.",
+   text="Reclaim audit (marked in use == reachable from the root; in-memory allocators == on-disk bitmaps; free counts return to the fresh values after delete-everything) in every state of a breadth-first search over a build/delete alphabet with background frees run to completion under the scheduler; on every crash image of histories that free a 530-block file in several background transactions, after the property's touch/reuse procedure (two variants: touch with SETATTR and reuse inode numbers; delete everything first); a second search on a disk with 10 free blocks, a third from the inode-exhausted state (a directory of 1024 blocks freed in the background), a fourth from a state with a 700-block file (rename over it, truncations, the server's own Crash() half-way, reuse); and at the end of every schedule of the concurrent-free harnesses.",
    note="Trusted: fsck decoders; scheduler-based waiting for shrinkers (no sleeping). Bounds: depth, alphabet, 2200/3000-block disks, image cap per history in quick (exhaustive:false), deviation bound.",
    technique="explicit-state search + crash-image enumeration + schedule exploration of the implementation with a reachability/bitmap audit as invariant",
    ref="DESIGN.md 4 (C05)"),
@@ -64,13 +64,13 @@ CLAIMED={
    technique="explicit-state search + schedule exploration + crash-image enumeration of the implementation with a structural invariant (fsck) evaluated in every state/image",
    ref="DESIGN.md 4 (C04)"),
  "C14": dict(
-   text="The C03 harnesses plus shutdown-while-shrinking and statistics-during-RPCs, every schedule within the deviation bound, executed in a -race build whose scheduler hands control between goroutines without creating a happens-before edge, so that the Go race detector judges each explored execution with exactly the program's own synchronisation.",
+   text="The C03 harnesses plus shutdown / Crash() while a shrinker runs or a request helps it, and statistics during RPCs, every schedule within the deviation bound, executed in a -race build whose scheduler hands control between goroutines without creating a happens-before edge, so that the Go race detector judges each explored execution with exactly the program's own synchronisation.",
    note="Trusted: the Go race detector (happens-before races only); the //go:norace hand-off (workers run with GOMAXPROCS=1). A report counts when both access stacks are in go-nfsd/go-journal code. Bounds: harness set, deviation bound 1/2. Replaces the property's free-running stress sub-clause by bounded-exhaustive schedules.",
    technique="deviation-bounded schedule exploration of the implementation under a controlled scheduler, Go race detector as per-execution oracle",
    ref="DESIGN.md 4 (C14)"),
  "C03": dict(
-   text="14 harnesses of 2-3 client threads on the real server (journal logger/installer and shrinker included) explored exhaustively within a deviation bound under a cooperative scheduler that owns every mutex, condition variable, goroutine and disk operation; every complete execution is checked for linearizability (replies incl. post-op attributes and listings, final dump) against the reference file system by brute force; final-state fsck and cache/allocator audit.",
-   note="Trusted: the scheduler shim; race-freedom of the harnesses (C14) for the happens-before state caching (cross-checked against an uncached search on two harnesses in every run); reference model. Bounds: 2-3 clients with 1-2 RPCs, deviation bound 1 (quick) / 2 (thorough): a deviation = preempting a runnable thread or running a journal daemon while a client could run.",
+   text="About 30 harnesses of 2-3 client threads on the real server (journal logger/installer and shrinker included) explored exhaustively within a deviation bound under a cooperative scheduler that owns every mutex, condition variable, goroutine and disk operation; every complete execution is checked for linearizability (replies incl. post-op attributes and listings, final dump) against the reference file system by brute force; final-state fsck and cache/allocator audit.",
+   note="Trusted: the scheduler shim; race-freedom of the harnesses (C14) for the happens-before state caching (cross-checked against an uncached search on two harnesses in every run); reference model. Bounds: 2-3 clients with 1-3 RPCs, each harness gets a fair share of the time budget (harnesses with long background frees are cut short in quick: exhaustive:false), deviation bound 1 (quick) / 2 (thorough): a deviation = preempting a runnable thread or running a journal daemon while a client could run.",
    technique="stateless deviation-bounded schedule exploration of the implementation (controlled scheduler) with happens-before state caching and a linearizability oracle",
    ref="DESIGN.md 4 (C03)"),
  "C06": dict(
@@ -79,13 +79,13 @@ CLAIMED={
    technique="explicit-state search + predictive lock-order analysis confirmed by deviation-bounded schedule exploration of the implementation",
    ref="DESIGN.md 4 (C06)"),
  "C01": dict(
-   text="Every history to the tier's depth over a 13-symbol crash alphabet is run on the real server on a recording disk; every crash image (every cut of the write/barrier trace x every loss choice of un-barriered writes, full product up to the cap per epoch) is checked with an independent fsck and recovered with the real MakeNfs under two schedules; the recovered tree must equal the reference after a prefix containing every stably acknowledged operation; then allocator/cache audit, further operations, dump and fsck.",
+   text="Every history to the tier's depth over a 15-symbol crash alphabet is run on the real server on a recording disk; every crash image (every cut of the write/barrier trace x every loss choice of un-barriered writes, full product up to the cap per epoch) is checked with an independent fsck and recovered with the real MakeNfs under two schedules; the recovered tree must equal the reference after a prefix containing every stably acknowledged operation; then allocator/cache audit, further operations (incl. writes across and far beyond the end of every surviving file), dump and fsck.",
    note="Trusted: Disk contract (atomic block writes; Barrier persists all earlier writes), reference model, the canonical image key (home blocks + header + live log entries). Bounds: history depth, alphabet, loss product cap (capped epochs fall back to <=2 deviations + issue-order prefixes and are reported exhaustive:false), two background policies and two recovery schedules rather than all schedules; a second crash during recovery (nested, loss cap 16) for the single-operation histories in quick and all histories in thorough.",
    technique="crash-image enumeration over recorded disk traces of all bounded operation histories, recovery by the implementation, reference-model prefix oracle",
    ref="DESIGN.md 4 (C01)"),
  "C07": dict(
    text="Every history to the tier's depth over UNSTABLE/DATA_SYNC/FILE_SYNC writes, COMMITs and metadata operations, option on and off: immediate read-back, committed level, verifier constancy; every crash image recovered and compared with the prefix states allowed by the acknowledgement order; clean restart without COMMIT.",
-   note="Trusted: as C01. A single client, so acknowledgement order = issue order. Bounds: depth, two files, alphabet of 16 symbols.",
+   note="Trusted: as C01. A single client, so acknowledgement order = issue order. Bounds: depth, two files, alphabet of 23 symbols (incl. rewrites of the same bytes with a stronger stability level and SETATTR of times alone).",
    technique="crash-image enumeration + explicit-state search over operation sequences of the implementation",
    ref="DESIGN.md 4 (C07)"),
  "C02": dict(
